@@ -233,6 +233,14 @@ class CallMixin(object):
     def call_property(self, st, acc, base, attr, node):
         """Read of a property: the getter is a call."""
         cls = base.cls
+        # call-site override of the current contract, keyed by the source text of the attribute access
+        cur = self.cur_contract
+        if cur is not None and cur.callsites and isinstance(node, ast.Attribute):
+            cid = cur.callsites.get(ast.unparse(node))
+            if cid is not None:
+                if cid.startswith(("abs:", "lib:", "user:")):
+                    return self.apply_contract(st, acc, self.get_contract(cid), None, base, [], {}, node)
+                return self.call_fid(st, acc, cid, base, [], {}, node)
         for c in self.src.mro(cls):
             abs_id = "abs:%s.%s" % (c, attr)
             if abs_id in self.reg:
